@@ -110,6 +110,32 @@ def genericMint (d : Bytes) (prog : Bytes) : Res (Option Mint) :=
     if v then (unpackMintFields d).map some else pure none
   else .ok none
 
+/-! ### the trait-level checked getters (`define_checked_getter!` in `GenericTokenAccount` /
+    `GenericTokenMint`), for callers that already know the token program -/
+
+/-- `if Self::valid_account_data(d) { Some(Self::unchecked(d)) } else { None }` -/
+def checkedGetter {α} (valid : Res Bool) (unchecked : Res α) : Res (Option α) :=
+  match valid with
+  | .ok true => unchecked.map some
+  | .ok false => .ok none
+  | .err e => .err e
+  | .panic => .panic
+
+/-- which implementor: `token::{Account,Mint}` or `token_2022::{Account,Mint}` -/
+def accountValidOf (t22 : Bool) (d : Bytes) : Res Bool := if t22 then t22AccountValid d else .ok (tokenAccountValid d)
+def mintValidOf (t22 : Bool) (d : Bytes) : Res Bool := if t22 then t22MintValid d else .ok (tokenMintValid d)
+
+def getAccountMint (t22 : Bool) (d : Bytes) : Res (Option Bytes) :=
+  checkedGetter (accountValidOf t22 d) (unpackPubkeyUnchecked d SPL_TOKEN_ACCOUNT_MINT_OFFSET)
+def getAccountOwner (t22 : Bool) (d : Bytes) : Res (Option Bytes) :=
+  checkedGetter (accountValidOf t22 d) (unpackPubkeyUnchecked d SPL_TOKEN_ACCOUNT_OWNER_OFFSET)
+def getAccountAmount (t22 : Bool) (d : Bytes) : Res (Option Nat) :=
+  checkedGetter (accountValidOf t22 d) (unpackU64Unchecked d SPL_TOKEN_ACCOUNT_AMOUNT_OFFSET)
+def getMintSupply (t22 : Bool) (d : Bytes) : Res (Option Nat) :=
+  checkedGetter (mintValidOf t22 d) (unpackU64Unchecked d SPL_TOKEN_MINT_SUPPLY_OFFSET)
+def getMintDecimals (t22 : Bool) (d : Bytes) : Res (Option UInt8) :=
+  checkedGetter (mintValidOf t22 d) (index d SPL_TOKEN_MINT_DECIMALS_OFFSET)
+
 /-- `is_known_spl_token_id` -/
 def isKnownId (p : Bytes) : Bool := p = TOKEN_ID || p = TOKEN_2022_ID
 
